@@ -198,7 +198,8 @@ func (h *histGen) op() lk.Op {
 		if n == 2 && objs[0] == objs[1] {
 			objs[1]++
 		}
-		return lk.Op{Kind: "delete", Branch: br, Objs: objs}
+		// (no extra draw: one delete in eight names objects the branch may no longer hold)
+		return lk.Op{Kind: "delete", Branch: br, Objs: objs, Any: objs[0] == 7}
 	case x < 64:
 		return lk.Op{Kind: "delete-where", Branch: br, Pred: h.pred()}
 	case x < 76:
@@ -210,9 +211,14 @@ func (h *histGen) op() lk.Op {
 		}
 		return lk.Op{Kind: "compact", Branch: br, Objs: objs, Vectors: r.Chance(1, 3)}
 	case x < 82:
-		return lk.Op{Kind: "add-vectors", Branch: br, Objs: []int{r.Intn(8)}}
+		// one vector add/delete in four names an object out of everything the pool
+		// has ever held (deleted from the branch, but its file not vacuumed): the
+		// request is then refused and must leave everything as it was
+		i := r.Intn(8)
+		return lk.Op{Kind: "add-vectors", Branch: br, Objs: []int{i}, Any: i >= 6}
 	case x < 85:
-		return lk.Op{Kind: "del-vectors", Branch: br, Objs: []int{r.Intn(8)}}
+		i := r.Intn(8)
+		return lk.Op{Kind: "del-vectors", Branch: br, Objs: []int{i}, Any: i >= 6}
 	case x < 90:
 		return lk.Op{Kind: "vacuum", Branch: br}
 	case x < 95 || !h.multi:
